@@ -343,12 +343,15 @@ def build_variants(t, ty, rng, thorough):
         ai = ty["pos"].index("args") + 1
         for triple in ({"enc_algo": "cryptobox"}, {"enc_algo": "cryptobox", "enc_key": "k1"}, {"enc_algo": "mqtt", "enc_serializer": "json"},
                        {"enc_algo": "xbr", "enc_key": "k", "enc_serializer": "cbor"}):
-            raw = copy.deepcopy(base)[:ai]
-            d = dict(raw[optpos])
-            d.update(triple)
-            raw[optpos] = d
-            raw.append(b"\x01\x02opaque\xff")
-            out.append(raw)
+            # ... alone, with every other option / detail key, and with all of them: the opaque payload form must not
+            # change how the rest of the message is read or written
+            for sel in [[]] + [[k] for k in keys if not k["k"].startswith("enc_")] + [[k for k in keys if not k["k"].startswith("enc_")]]:
+                raw = with_opts(sel, 1, None)[:ai]
+                d = dict(raw[optpos])
+                d.update(triple)
+                raw[optpos] = d
+                raw.append(b"\x01\x02opaque\xff")
+                out.append(raw)
     return out
 
 
